@@ -15,6 +15,7 @@ Reading guide.
 -/
 import Ymq.Lemmas.PolySiqsExact
 import Ymq.Lemmas.PolyCrt
+import Ymq.Lemmas.PolyWalkB
 import Ymq.Lemmas.PolyMpqs
 import Ymq.Lemmas.PolyQs
 
@@ -149,6 +150,9 @@ theorem gray_step (idx : Nat) (h : idx < 2 ^ 63) :
   · show ¬ 2 ^ (tz64 (pg ^^^ ng) + 1) ∣ idx + 1
     rw [h1]; exact h6
 
+/-- the step from index 11 to 12 flips bit 2 = trailing_zeros(12) -/
+example : (11 : Nat) < 2 ^ 63 ∧ tz64 ((11 ^^^ (11 >>> 1)) ^^^ (12 ^^^ (12 >>> 1))) = 2 := by decide
+
 /-- The root invariant for one prime `q = (p, r)` of the factor base with `p ∤ a2a`:
 both entries are reduced, `a2a·(r1 + so) + B ≡ −r` and `a2a·(r2 + so) + B ≡ r (mod p)`. -/
 def RootsOk (a2a : Nat) (so : Int) (q : Prime) (b : Int) (r12 : Nat × Nat) : Prop :=
@@ -279,6 +283,36 @@ theorem siqs_B_sq (n : Int) (sel : List Prime) (f : Factors) (a : Nat) (prs : Li
     (n % 4 = 1 → a % 2 = 1 → prs ≠ [] →
       bsum g 0 prs % 2 = 1 ∧ (4 * (a : Int)) ∣ (bsum g 0 prs : Int) * (bsum g 0 prs : Int) - n) :=
   crt_B_sq hs hf ha hprs g
+
+open Ymq.PolyCrt Ymq.PolyWalkB in
+/-- `walk_B_sq`: for EVERY polynomial of the Gray walk (family with at least one factor), `B` is the sum
+of the CRT roots selected by the Gray code of `idx` (`grayBits idx j` = bit `j` of `idx ^ (idx >> 1)`),
+hence `A ∣ B² − n`, and for type 2 (`A` odd) `B` is odd and `4A ∣ B² − n`: the assertions
+`debug_assert!(((b*b − n) % a).is_zero())` of `_finish_polynomial` and `assert!(self.b.bit(0))` of
+`Poly::first`/`Poly::next` cannot fail, independently of the copies of these checks in the model. -/
+theorem walk_B_sq (n : Int) (sel fb : List Prime) (f : Factors) (a mm idx : Nat) (so : Int)
+    (pa : APrep) (pol : Poly) (hs : SelOk n sel) (hf : mkFactors n sel = some f)
+    (ha : a = ((afsOf f a).map (·.2.p)).prod)
+    (hpa : prepareA f a fb so = some pa) (hne : pa.factors.isEmpty = false)
+    (hpol : polyAt (mkSieve n mm) pa idx = some pol) :
+    pol.b = bsumZ (grayBits idx) 0 pa.roots ∧ (a : Int) ∣ pol.b * pol.b - n ∧
+    (n % 4 = 1 → a % 2 = 1 → pol.b % 2 = 1 ∧ (4 * (a : Int)) ∣ pol.b * pol.b - n) := by
+  obtain ⟨prs, hprs, _, _, _, hfac, hroots, _, _⟩ := prepareA_some hpa
+  obtain ⟨_, hb⟩ := polyAt_b hne idx pol hpol
+  have hbz : pol.b = ((bsum (grayBits idx) 0 prs : Nat) : Int) := by
+    rw [hb, hroots]; exact bsumZ_cast _ _ _
+  obtain ⟨h1, h2⟩ := crt_B_sq hs hf ha hprs (grayBits idx)
+  refine ⟨hb, by rw [hbz]; exact h1, ?_⟩
+  intro h4 hodd
+  have hprs_ne : prs ≠ [] := by
+    intro he
+    obtain ⟨hl, _⟩ := rootPairs_le (f := f) (a := a) (afs := afsOf f a) _ _ _ hprs
+    rw [he] at hl
+    have : afsOf f a = [] := List.length_eq_zero_iff.mp hl.symm
+    rw [hfac, this] at hne
+    simp at hne
+  obtain ⟨h3, h5⟩ := h2 h4 hodd hprs_ne
+  refine ⟨by rw [hbz]; omega, by rw [hbz]; exact h5⟩
 
 /-! #### non-vacuity of the SIQS theorems: a concrete family (n = 1050589 ≡ 5 mod 8, A = 7·11) -/
 
